@@ -904,3 +904,69 @@ def beta(n):
         if m and f.get("k") == "path" and args:
             return {"k": "mcall", "m": m.group(2), "recv": args[0], "args": args[1:], "callee": path, "recv_ty": m.group(1), "ty": n.get("ty"), "line": n.get("line")}
     return n
+
+
+def specialise(n, lid, variant):
+    """copy of n under the assumption that the local `lid` holds the unit enum variant `variant` (last path segment):
+    `match <local> {..}` is replaced by the arm taken, `<local> == Enum::V` / `!=` and `matches!(<local>, ..)` by their truth value,
+    an `if` on a decided condition by the branch taken.  Used to read an or-pattern arm `A | B => { .. match op { A => x, _ => y } .. }`
+    as the two arms it stands for."""
+    if isinstance(n, list):
+        return [specialise(x, lid, variant) for x in n]
+    if not isinstance(n, dict):
+        return n
+    k = n.get("k")
+    if k == "match" and not is_try(n) and local_id(strip(n["scrut"])) == lid:
+        for a in n["arms"]:
+            vs = {last(v) for v in pat_variants(a["pat"])}
+            if variant in vs or "*" in vs:
+                if a.get("guard") is not None:
+                    break
+                return specialise(a["body"], lid, variant)
+    n2 = {kk: specialise(v, lid, variant) for kk, v in n.items()}
+    if k == "bin" and n2["op"] in ("==", "!="):
+        for a, b in ((n2["l"], n2["r"]), (n2["r"], n2["l"])):
+            if local_id(strip(a)) == lid:
+                c = ctor_of(strip(b))
+                if c:
+                    return {"k": "lit", "lk": "bool", "v": (last(c) == variant) == (n2["op"] == "=="), "ty": "bool"}
+    if k == "un" and n2.get("op") == "!" and strip(n2["e"]).get("k") == "lit" and strip(n2["e"]).get("lk") == "bool":
+        return {"k": "lit", "lk": "bool", "v": not strip(n2["e"])["v"], "ty": "bool"}
+    if k == "bin" and n2["op"] in ("&&", "||"):
+        l, r = strip(n2["l"]), strip(n2["r"])
+        for a, b in ((l, n2["r"]), (r, n2["l"])):
+            if a.get("k") == "lit" and a.get("lk") == "bool":
+                if n2["op"] == "&&":
+                    return b if a["v"] else {"k": "lit", "lk": "bool", "v": False, "ty": "bool"}
+                return {"k": "lit", "lk": "bool", "v": True, "ty": "bool"} if a["v"] else b
+    if k == "if":
+        c = strip(n2["c"])
+        if c.get("k") == "lit" and c.get("lk") == "bool":
+            if c["v"]:
+                return n2["t"]
+            return n2["e"] if n2.get("e") is not None else {"k": "block", "stmts": [], "expr": None}
+    return n2
+
+
+def split_tuple_lets(n):
+    """copy of n in which `let (a, b) = (x, y);` is written as `let a = x; let b = y;`"""
+    if isinstance(n, list):
+        return [split_tuple_lets(x) for x in n]
+    if not isinstance(n, dict):
+        return n
+    n2 = {k: split_tuple_lets(v) for k, v in n.items()}
+    if n2.get("k") == "block":
+        out = []
+        for st in n2.get("stmts", []):
+            pat = st.get("pat", {}) if st.get("k") == "let" else {}
+            init = strip(st["init"]) if st.get("k") == "let" and st.get("init") is not None else {}
+            if pat.get("k") == "tuple" and init.get("k") == "tup" and len(pat["pats"]) == len(init.get("es", [])) and all(p.get("k") in ("bind", "wild") for p in pat["pats"]):
+                for p, e in zip(pat["pats"], init["es"]):
+                    if p.get("k") == "bind":
+                        out.append({"k": "let", "pat": p, "init": e, "line": st.get("line")})
+                    else:
+                        out.append({"k": "semi", "e": e})
+            else:
+                out.append(st)
+        n2["stmts"] = out
+    return n2
